@@ -1582,3 +1582,150 @@ Example ex_nested :
             /\ ttouched t = [0%nat]
             /\ tget w_nested t 1 = Some 1 /\ tget w_nested t 2 = None.
 Proof. eexists. repeat split; vm_compute; reflexivity. Qed.
+
+(* ------------------------------------------ reading: mapping features *)
+Lemma memn_In : forall x l, memn x l = true <-> In x l.
+Proof.
+  intros x l; induction l as [|y r IH]; cbn [memn In].
+  - split; [discriminate | tauto].
+  - rewrite orb_true_iff, IH, Nat.eqb_eq. split; intros [H|H]; auto.
+Qed.
+
+Lemma active_bound : forall n (active : list nat) i,
+    NoDup active -> (forall j, In j active -> (j < n)%nat) ->
+    (i < n)%nat -> ~ In i active -> (S (length active) <= n)%nat.
+Proof.
+  intros n active i Hnd Hlt Hi Hni.
+  assert (Hnd' : NoDup (i :: active)) by (constructor; assumption).
+  assert (Hincl : incl (i :: active) (seq 0 n)).
+  { intros j [<-|Hj]; apply in_seq; [lia | specialize (Hlt j Hj); lia]. }
+  pose proof (NoDup_incl_length Hnd' Hincl) as H.
+  rewrite seq_length in H. exact H.
+Qed.
+
+(* The lookup of a (mapping) feature ends: with the re-entrancy guard every
+   nested lookup makes one more basin active, so fuel = number of basin
+   objects not yet active + 1 is never exhausted -- whatever the basins need
+   and deliver (also when the mapping feature is stored nowhere, or only
+   "behind" the basin that needs it). *)
+Lemma lookup_terminates_aux :
+  forall n innate needs gives k active feat,
+    NoDup active -> (forall j, In j active -> (j < n)%nat) ->
+    (n - length active <= k)%nat ->
+    lookup n innate needs gives (S k) active feat <> None.
+Proof.
+  intros n innate needs gives k; induction k as [|k IH];
+    intros active feat Hnd Hlt Hk.
+  - cbn [lookup]. destruct (innate feat); [discriminate|].
+    assert (Hall : forall bs, (forall i, In i bs -> (i < n)%nat) ->
+      (fix try (bs : list nat) : option bool :=
+         match bs with
+         | [] => Some false
+         | i :: rest =>
+             match
+               match needs i with
+               | Some _ => if memn i active then Some false else None
+               | None => Some true
+               end
+             with
+             | Some true => if gives i feat then Some true else try rest
+             | Some false => try rest
+             | None => None
+             end
+         end) bs <> None).
+    { induction bs as [|i rest IHb]; intros Hb; [discriminate|].
+      assert (Hi : (i < n)%nat) by (apply Hb; left; reflexivity).
+      assert (Hrest : forall j, In j rest -> (j < n)%nat)
+        by (intros j Hj; apply Hb; right; exact Hj).
+      destruct (needs i) as [m|].
+      - destruct (memn i active) eqn:Em; [apply IHb; exact Hrest|].
+        exfalso.
+        assert (Hni : ~ In i active)
+          by (intros Hin; apply memn_In in Hin; congruence).
+        pose proof (active_bound n active i Hnd Hlt Hi Hni). lia.
+      - destruct (gives i feat); [discriminate | apply IHb; exact Hrest]. }
+    apply Hall. intros i Hi. apply in_seq in Hi. lia.
+  - change (lookup n innate needs gives (S (S k)) active feat)
+      with (if innate feat then Some true
+            else (fix try (bs : list nat) : option bool :=
+                    match bs with
+                    | [] => Some false
+                    | i :: rest =>
+                        match
+                          match needs i with
+                          | Some m =>
+                              if memn i active then Some false
+                              else lookup n innate needs gives (S k)
+                                          (i :: active) m
+                          | None => Some true
+                          end
+                        with
+                        | Some true =>
+                            if gives i feat then Some true else try rest
+                        | Some false => try rest
+                        | None => None
+                        end
+                    end) (seq 0 n)).
+    destruct (innate feat); [discriminate|].
+    assert (Hall : forall bs, (forall i, In i bs -> (i < n)%nat) ->
+      (fix try (bs : list nat) : option bool :=
+         match bs with
+         | [] => Some false
+         | i :: rest =>
+             match
+               match needs i with
+               | Some m =>
+                   if memn i active then Some false
+                   else lookup n innate needs gives (S k) (i :: active) m
+               | None => Some true
+               end
+             with
+             | Some true => if gives i feat then Some true else try rest
+             | Some false => try rest
+             | None => None
+             end
+         end) bs <> None).
+    { induction bs as [|i rest IHb]; intros Hb; [discriminate|].
+      assert (Hi : (i < n)%nat) by (apply Hb; left; reflexivity).
+      assert (Hrest : forall j, In j rest -> (j < n)%nat)
+        by (intros j Hj; apply Hb; right; exact Hj).
+      destruct (needs i) as [m|].
+      - destruct (memn i active) eqn:Em; [apply IHb; exact Hrest|].
+        assert (Hni : ~ In i active)
+          by (intros Hin; apply memn_In in Hin; congruence).
+        pose proof (active_bound n active i Hnd Hlt Hi Hni) as Hb'.
+        assert (Hrec : lookup n innate needs gives (S k) (i :: active) m
+                       <> None).
+        { apply IH.
+          - constructor; assumption.
+          - intros j [<-|Hj]; [exact Hi | apply Hlt; exact Hj].
+          - cbn [length]. lia. }
+        destruct (lookup n innate needs gives (S k) (i :: active) m)
+          as [[|]|]; [| apply IHb; exact Hrest | congruence].
+        destruct (gives i feat); [discriminate | apply IHb; exact Hrest].
+      - destruct (gives i feat); [discriminate | apply IHb; exact Hrest]. }
+    apply Hall. intros i Hi. apply in_seq in Hi. lia.
+Qed.
+
+Lemma lookup_terminates : forall n innate needs gives feat,
+    lookup n innate needs gives (S n) [] feat <> None.
+Proof.
+  intros. apply lookup_terminates_aux; [constructor | intros j [] |].
+  cbn [length]. lia.
+Qed.
+
+(* two mapped basins each of which could only deliver the other's mapping
+   feature, and one healthy basin: the lookups fail, the healthy basin
+   still delivers *)
+Example ex_lookup :
+  let needs := fun i : nat =>
+                 match i with
+                 | 0%nat => Some 10 | 1%nat => Some 11 | _ => None
+                 end in
+  let gives := fun (i : nat) (f : Z) =>
+                 match i with
+                 | 0%nat => f =? 11 | 1%nat => f =? 10 | _ => f =? 2
+                 end in
+  lookup 3 (fun _ => false) needs gives 4 [] 10 = Some false
+  /\ lookup 3 (fun _ => false) needs gives 4 [] 2 = Some true.
+Proof. split; vm_compute; reflexivity. Qed.
